@@ -63,6 +63,8 @@ def check_case(case):
         x["kind"] = shape[0]
         x["transform_class"] = "non_conformal" if tc in ("non_conformal",) else ("axis_scale" if tc == "axis_scale" else "conformal")
         x["reflection"] = M[0] * M[3] - M[1] * M[2] < 0
+        x["antidiagonal_reflection"] = M[0] == 0 and M[3] == 0 and M[0] * M[3] - M[1] * M[2] < 0
+        x["round"] = shape[0] in ("circle", "ellipse") or (shape[0] == "rect" and any(type(r).__name__ == "Arc" for r in ref))
     return {"dis": dis, "nontrivial": bool(ref), "class": "shape:%s:%s" % (shape[0], tc), "checked": ["PointImage"]}
 
 
